@@ -346,6 +346,29 @@ def m_version_sensitive(rng: random.Random):
     return {"k": "model", "op": rng.choice(["fold", "optimize", "optimize"]), "model": text}, f"fold:version_sensitive:{opname}@{opset}"
 
 
+EVAL_GAP_OPS = ("Softmax", "LogSoftmax", "Hardmax")
+
+
+def m_evaluator_version(rng: random.Random, opset: int | None = None, opname: str | None = None):
+    """Constant-input nodes for which the folder's evaluator lookup answers differently at different opset versions:
+    `ReferenceEvaluator.get_evaluator` returns None for the Softmax family below opset 13 (coerce-to-2D semantics) and an
+    implementation from 13 on; boundary versions 12/13 are drawn deliberately, and unknown / custom-domain ops (load_op
+    fails at every version) ride along so that "no evaluator" answers for other keys are in the same histories."""
+    opset = opset or rng.choice([1, 11, 12, 12, 13, 13, 14, 18])
+    opname = opname or rng.choice(EVAL_GAP_OPS)
+    axis = rng.choice([None, 0, 1, -1])
+    attr = "" if axis is None else f"<axis = {axis}>"
+    hdr = f'<ir_version: 8, opset_import: ["" : {opset}, "custom.eval" : 1]>\n'
+    extra = ""
+    if rng.random() < 0.4:  # an op no evaluator exists for (custom domain), also on constant inputs
+        extra = "  u = custom.eval.Mystery (k)\n  x2 = Add (x, u)\n"
+    src = "x2" if extra else "x"
+    text = hdr + (f"agraph (float[2,3] x) => (float[2,3] y)\n<float[2,3] k = {{1,2,3,4,5,6}}>\n{{\n{extra}  c = {opname} {attr} (k)\n"
+                  f"  y = Mul ({src}, c)\n}}\n")
+    return ({"k": "model", "op": rng.choice(["fold", "optimize", "optimize"]), "model": text, "watch_op": opname, "watch_opset": opset},
+            f"fold:evaluator_version:{opname}@{opset}")
+
+
 def gen_script_castable(rng: random.Random, name: str):
     """an identifier that is a script-time constant in one script and a tensor parameter in another"""
     ident = rng.choice(["const", "k", "int64_1", "scale", "const_0"])
@@ -419,10 +442,12 @@ def gen_model_op(rng: random.Random, allow_fail: bool = True):
         return m_as_function(rng)
     if r < 0.39:
         return m_version_sensitive(rng)
-    if allow_fail and r < 0.42:
+    if r < 0.43:
+        return m_evaluator_version(rng)
+    if allow_fail and r < 0.46:
         text, tag = m_boom(rng)
         return {"k": "model", "op": "rewrite", "rules": rng.choice(["default_then_boom", "boom_first"]), "model": text}, "rewrite:boom(fails)"
-    if allow_fail and r < 0.45:
+    if allow_fail and r < 0.49:
         text, tag = m_misc(rng)
         text = text.replace("float[2] c1", "float[2] c1")
         return {"k": "model", "op": "fold", "raise_on": rng.choice(["Add", "Mul", "Cast", "Relu"]), "model": text}, "fold:interrupted?"
